@@ -207,8 +207,8 @@ Print Assumptions C08_any_type_value.
 (* the premise inner_ok of C08_encode_is_print / C01 is an instance of the theorem: when the inner
    encoding of an Any payload is the encoder itself on the payload message of a registered type
    (resolver and proto.Unmarshal abstract), nested to any depth, its outputs are compact JSON *)
-Theorem C08_inner_encoding_is_compact : forall fmt_float reg unmarshal,
-  float_text_ok fmt_float ->
+Theorem C08_inner_encoding_is_compact : forall fmt_float,
+  float_text_ok fmt_float -> forall reg unmarshal,
   (forall tn e root, reg tn = Some (e, root) -> oneofs_flat e) ->
   (forall tn pb e root m, reg tn = Some (e, root) -> unmarshal tn pb = Some m -> raw_root_gen e compact_json root m) ->
   forall n, inner_ok (inner_n fmt_float reg unmarshal n).
